@@ -21,7 +21,7 @@ func init() {
 	for _, p := range []string{"C06", "C15"} {
 		runner.Register(p, runner.Scenario{Name: "federation", Options: opts, Body: fedBody})
 		runner.Register(p, runner.Scenario{Name: "federation-preempt", Options: func(string) simrt.Options {
-			return simrt.Options{MaxSteps: 400000, RotateMaps: true, ParkPermille: 5}
+			return simrt.Options{MaxSteps: 400000, RotateMaps: true, ParkPermille: 5, PausePermille: 2}
 		}, Body: fedBody})
 	}
 }
@@ -29,6 +29,12 @@ func init() {
 // Shadow object types of the non-root services: the federated key is the id.
 type SA struct {
 	ID int64 `graphql:"id"`
+}
+
+// SA2 is the shadow of A on a service version that wants two key fields.
+type SA2 struct {
+	ID   int64  `graphql:"id"`
+	Name string `graphql:"name"`
 }
 type SB struct {
 	ID int64 `graphql:"id,key"`
@@ -44,13 +50,16 @@ var fedScalarFields = []string{"A.tag", "A.score", "B.label", "C.w"}
 // fields, the struct fields and every field returning an object), the scalar
 // computed fields live on any non-empty subset of s1, s2, s3.
 type fedWorld struct {
-	w             *world
-	homes         map[string][]string // field -> services that serve it
-	faulty        bool
+	w      *world
+	homes  map[string][]string // field -> services that serve it
+	faulty bool
 	// introspection (schema refresh) requests fail until this simulated time: a
 	// service that is restarting during a roll-out
 	refreshOutageUntil time.Duration
-	serviceErrors      int
+	// wideKeys: services whose current version identifies an A by (id, name)
+	// and refuses to answer for a key whose name does not fit the id
+	wideKeys      map[string]bool
+	serviceErrors int
 	requestErrors []string
 }
 
@@ -233,7 +242,34 @@ func (fw *fedWorld) buildService(name string) (*graphql.Schema, error) {
 	}
 	// a non-root service: shadow objects fetched from their keys
 	s.Query().FieldFunc("ping_"+name, func() string { return name })
-	if serves("A.tag") || serves("A.score") || serves("A.extra") {
+	if fw.wideKeys[name] && (serves("A.tag") || serves("A.score")) {
+		oa := s.Object("A", SA2{}, schemabuilder.FetchObjectFromKeys(func(args struct{ Keys []*SA2 }) []*SA2 { return args.Keys }))
+		fits := func(a *SA2) bool {
+			return a.ID >= 100 && int(a.ID-100) < len(w.as) && w.as[a.ID-100].Name == a.Name
+		}
+		if serves("A.tag") {
+			oa.FieldFunc("tag", func(ctx context.Context, a *SA2, args struct{ X int64 }) (string, error) {
+				if err := w.point(ctx, "A.tag", a.ID); err != nil {
+					return "", err
+				}
+				if !fits(a) {
+					return fmt.Sprintf("WRONG-OBJECT(id=%d name=%q)", a.ID, a.Name), nil
+				}
+				return w.tagVal(a.ID, args.X), nil
+			})
+		}
+		if serves("A.score") {
+			oa.FieldFunc("score", func(ctx context.Context, a *SA2) (int64, error) {
+				if err := w.point(ctx, "A.score", a.ID); err != nil {
+					return 0, err
+				}
+				if !fits(a) {
+					return -1, nil
+				}
+				return w.scoreVal(a.ID), nil
+			})
+		}
+	} else if serves("A.tag") || serves("A.score") || serves("A.extra") {
 		oa := s.Object("A", SA{}, schemabuilder.FetchObjectFromKeys(func(args struct{ Keys []*SA }) []*SA { return args.Keys }))
 		if serves("A.extra") {
 			// only exists after the service was redeployed
@@ -295,12 +331,16 @@ func (fw *fedWorld) buildService(name string) (*graphql.Schema, error) {
 // errors, records what the service received and calls the real
 // federation.Server.
 type transport struct {
-	c        *runner.Ctx
-	name     string
-	srv      *federation.Server
-	requests int
-	faulty   bool
-	fw       *fedWorld
+	c    *runner.Ctx
+	name string
+	// oldSrv keeps answering the requests that began before redeployAt (the
+	// old version is drained, not killed)
+	oldSrv     *federation.Server
+	redeployAt time.Duration
+	srv        *federation.Server
+	requests   int
+	faulty     bool
+	fw         *fedWorld
 }
 
 func (t *transport) Execute(ctx context.Context, req *federation.QueryRequest) (*federation.QueryResponse, error) {
@@ -348,7 +388,12 @@ func (t *transport) Execute(ctx context.Context, req *federation.QueryRequest) (
 		}
 		return nil, errors.New("SECRET-service-unavailable-" + t.name)
 	}
-	resp, err := t.srv.Execute(ctx, &thunderpb.ExecuteRequest{Query: marshaled})
+	srv := t.srv
+	if t.oldSrv != nil && !isIntrospection && r != nil && r.startedAt > 0 && r.startedAt <= t.redeployAt {
+		t.c.Probe("request-served-by-draining-version")
+		srv = t.oldSrv
+	}
+	resp, err := srv.Execute(ctx, &thunderpb.ExecuteRequest{Query: marshaled})
 	if err != nil {
 		if !isIntrospection {
 			t.fw.requestErrors = append(t.fw.requestErrors, fmt.Sprintf("%s: %v", t.name, err))
@@ -361,25 +406,29 @@ func (t *transport) Execute(ctx context.Context, req *federation.QueryRequest) (
 type fedReqKey struct{}
 
 type fedRequest struct {
-	mutation bool
-	special  string // "", "introspect-extra", "data-extra": issued after a service was redeployed with a new field
+	startedAt time.Duration // simulated time (+1ns) at which gateway.Execute was called
+	// lenient: began while a service version with another key set was being
+	// rolled out and the gateway had not refreshed yet; it may fail
+	lenient      bool
+	mutation     bool
+	special      string        // "", "introspect-extra", "data-extra": issued after a service was redeployed with a new field
 	firstErrorAt time.Duration // simulated time (+1ns) at which a service error was first returned for this request
 	cancelledAt  time.Duration
 	doneAt       time.Duration
 	idx          int
-	text      string
-	root      *qset
-	cancelAt  time.Duration // <0 never
-	cancelled bool
-	done      bool
-	val       interface{}
-	err       error
-	rejected  error
+	text         string
+	root         *qset
+	cancelAt     time.Duration // <0 never
+	cancelled    bool
+	done         bool
+	val          interface{}
+	err          error
+	rejected     error
 }
 
 func fedBody(c *runner.Ctx) {
 	w := newWorld(c)
-	fw := &fedWorld{w: w, homes: map[string][]string{}}
+	fw := &fedWorld{w: w, homes: map[string][]string{}, wideKeys: map[string]bool{}}
 	fw.faulty = c.Choose(2, "class") == 1
 	c.Class = "fault-free"
 	if fw.faulty {
@@ -410,6 +459,23 @@ func fedBody(c *runner.Ctx) {
 			homeDesc = append(homeDesc, "Query.bs2@"+h)
 			break
 		}
+	}
+	// the last service may start out as a version that wants (id, name) as the
+	// key of A and be redeployed later as one that wants the id only
+	keyShrink := !fw.faulty && c.Choose(4, "key-shrink-redeploy") == 1
+	for _, f := range []string{"A.tag", "A.score"} {
+		for _, h := range fw.homes[f] {
+			// (thunder wants every service that declares A to expose every key
+			// field any service asks for: the id-only shadows of a third service
+			// would not)
+			if h != "s1" && h != names[nServices-1] {
+				keyShrink = false
+			}
+		}
+	}
+	if keyShrink {
+		fw.wideKeys[names[nServices-1]] = true
+		homeDesc = append(homeDesc, "A-keyed-by-id+name@"+names[nServices-1])
 	}
 	c.Describe("world A=%d B=%d C=%d services=%v homes: %s", w.nA, w.nB, w.nC, names, strings.Join(homeDesc, " "))
 	monolith, err := w.buildSchema()
@@ -489,6 +555,9 @@ func fedBody(c *runner.Ctx) {
 		c.Describe("request %d cancel@%v: %s", i, r.cancelAt, r.text)
 	}
 	finished := 0
+	// rollout .. settled: the window in which a request may meet a service
+	// version whose key set the gateway does not know yet
+	var rollout, settled time.Duration
 	for _, r := range reqs {
 		r := r
 		start := time.Duration(c.Choose(8, "request-start")) * 300 * time.Millisecond
@@ -511,6 +580,10 @@ func fedBody(c *runner.Ctx) {
 					cancel()
 				}()
 			}
+			r.startedAt = simrt.Now() + 1
+			if rollout > 0 && r.startedAt > rollout && r.startedAt <= settled {
+				r.lenient = true
+			}
 			r.val, _, r.err = gateway.Execute(rctx, q, nil)
 			r.done = true
 			r.doneAt = simrt.Now()
@@ -520,7 +593,7 @@ func fedBody(c *runner.Ctx) {
 	// a rolling deploy: the last service comes back with a new field on A; after
 	// the next successful refresh the gateway must plan it, and its own
 	// introspection must advertise it
-	if !fw.faulty && c.Choose(3, "redeploy") == 1 {
+	if !fw.faulty && (keyShrink || c.Choose(3, "redeploy") == 1) {
 		simrt.Sleep(time.Duration(c.Choose(2000, "redeploy-at")) * time.Millisecond)
 		last := transports[len(transports)-1]
 		if c.Choose(2, "refresh-outage") == 1 {
@@ -533,10 +606,20 @@ func fedBody(c *runner.Ctx) {
 			}
 		}
 		fw.homes["A.extra"] = []string{last.name}
+		delete(fw.wideKeys, last.name)
 		schema, err := fw.buildService(last.name)
 		if err == nil {
 			if srv, err := federation.NewServer(schema); err == nil {
 				c.Fault("service-redeploy")
+				if keyShrink {
+					c.Fault("service-redeploy-with-other-key-set")
+					rollout = simrt.Now()
+					settled = rollout + 4*time.Second
+					if fw.refreshOutageUntil > rollout {
+						settled = fw.refreshOutageUntil + 4*time.Second
+					}
+					last.oldSrv, last.redeployAt = last.srv, rollout
+				}
 				last.srv = srv
 				if d := fw.refreshOutageUntil - simrt.Now(); d > 0 {
 					simrt.Sleep(d)
@@ -605,6 +688,10 @@ func fedBody(c *runner.Ctx) {
 		}
 		if r.cancelledAt > 0 && r.doneAt > r.cancelledAt && r.doneAt-r.cancelledAt > 2*time.Second {
 			c.ViolateFor("C15", "gateway-slow-to-return-after-cancellation", "request %d was cancelled at t=%v but Execute only returned at t=%v", r.idx, r.cancelledAt, r.doneAt)
+		}
+		if r.err != nil && r.lenient {
+			c.Probe("request-failed-during-key-set-rollout")
+			continue
 		}
 		if r.err != nil {
 			if !fw.faulty {
